@@ -290,10 +290,13 @@ where
     let rep = &mut *cx.rep;
     rep.count(&format!("packet {name}: values written, compared with the reference bytes and read back"), 1);
     let ref_body = wire.body();
+    let sample = cx.sample;
     let mut trace = serde_json::Map::new();
-    trace.insert("reference_id".into(), json!(wire.id()));
-    trace.insert("crate_id".into(), json!(T::ID));
-    trace.insert("reference_body".into(), json!(hex(&ref_body)));
+    if sample {
+        trace.insert("reference_id".into(), json!(wire.id()));
+        trace.insert("crate_id".into(), json!(T::ID));
+        trace.insert("reference_body".into(), json!(hex(&ref_body)));
+    }
 
     // the packet id the protocol assigns
     if T::ID != wire.id() {
@@ -312,7 +315,9 @@ where
     let mut out: Vec<u8> = Vec::new();
     match drive(val.write_to_buffer(&mut out)) {
         Run::Done(Ok(())) => {
-            trace.insert("crate_body".into(), json!(hex(&out)));
+            if sample {
+                trace.insert("crate_body".into(), json!(hex(&out)));
+            }
             if !semantic {
                 if out != ref_body {
                     rep.violation(
@@ -328,7 +333,9 @@ where
                 }
             } else {
                 let seen = Pkt::decode(phase, dir, wire.id(), &out);
-                trace.insert("independent_decode_of_crate_body".into(), json!(format!("{seen:?}")));
+                if sample {
+                    trace.insert("independent_decode_of_crate_body".into(), json!(format!("{seen:?}")));
+                }
                 if seen.as_ref().ok() != Some(&expect) {
                     rep.violation(
                         &format!("text-encode/{name}/json"),
@@ -412,8 +419,10 @@ where
     let value_sig = if semantic { format!("text-decode/{name}/json") } else { format!("decode/{name}/value") };
     match read_with::<T>(&ref_body) {
         ReadObs::Value(d, pos) => {
-            trace.insert("crate_decode_of_reference_body".into(), json!(format!("{d:?}")));
-            trace.insert("position_after_decode".into(), json!(pos));
+            if sample {
+                trace.insert("crate_decode_of_reference_body".into(), json!(format!("{d:?}")));
+                trace.insert("position_after_decode".into(), json!(pos));
+            }
             if !judge(&d) {
                 rep.violation(
                     &value_sig,
@@ -695,10 +704,13 @@ where
     let body = wire.body();
     let rep = &mut *cx.rep;
     rep.count(&format!("enum {field}: ordinals fed to the crate's reader"), 1);
-    let observed;
+    let sample = cx.sample;
+    let mut observed = String::new();
     match read_with::<T>(&body) {
         ReadObs::Value(d, pos) => {
-            observed = format!("Ok({d:?}) at position {pos} of {}", body.len());
+            if sample {
+                observed = format!("Ok({d:?}) at position {pos} of {}", body.len());
+            }
             if !defined {
                 rep.violation(
                     &format!("enum-accept/{field}"),
@@ -714,7 +726,9 @@ where
             }
         }
         ReadObs::Error(e) => {
-            observed = format!("Err({e})");
+            if sample {
+                observed = format!("Err({e})");
+            }
             if defined {
                 rep.violation(
                     &format!("enum-variant/{field}"),
